@@ -101,6 +101,19 @@ def walk_shallow(node: ast.AST, *, into_nested: bool = False) -> Iterator[ast.AS
         stack.extend(ast.iter_child_nodes(n))
 
 
+_BASELINE: dict | None = None
+
+
+def _baseline_helpers() -> dict:
+    """Private function names per module on the tree the rules were confirmed on (sa/baseline_helpers.json, names only)."""
+    global _BASELINE
+    if _BASELINE is None:
+        import json
+        p = Path(__file__).with_name("baseline_helpers.json")
+        _BASELINE = {k: set(v) for k, v in json.loads(p.read_text(encoding="utf-8"))["modules"].items()} if p.is_file() else {}
+    return _BASELINE
+
+
 class Repo:
     def __init__(self, root: Path | None = None):
         self.root = Path(root) if root else repo_root()
@@ -135,9 +148,35 @@ class Repo:
             r.by_rel[rel] = m
             if r.modules.get(old.name) is old:
                 r.modules[old.name] = m
+        words = getattr(self, "_auto_words", None)
+        if words is not None:
+            r._auto_words = words
+            r._inlined = dict(getattr(self, "_inlined", {}))
+            for rel in overlay:
+                if rel.endswith(".py"):
+                    r._inlined.pop(rel, None)
         return r
 
-    def use_inlined(self, name: str, protected) -> int:
+    # ------------------------------------------------------------------ helper-inlined view of every module
+    def auto_inline(self, words: set[str]) -> int:
+        """Replace every module by its helper-inlined view (sa/inline.py). A private function whose name is in `words`
+        (the identifiers the property module mentions: its anchors) is kept; every other private helper is folded into
+        its callers. Returns the number of inlined calls."""
+        self._auto_words = set(words)
+        return 0  # lazily, per module, on first access through module()/func()/cls()/methods()
+
+    def _auto_inline_one(self, m: "Module") -> int:
+        words = self._auto_words
+        privates = [q for q in m.functions if q.split(".")[-1].startswith("_") and not q.split(".")[-1].startswith("__")]
+        if not privates:
+            return 0
+        base = _baseline_helpers().get(m.rel, ())
+        protected = {q.split(".")[-1] for q in privates if q.split(".")[-1] in words or q.split(".")[-1] in base}
+        if len(protected) == len({q.split(".")[-1] for q in privates}):
+            return 0
+        return self.use_inlined(m.name, protected, rel=m.rel)
+
+    def use_inlined(self, name: str, protected, rel: str | None = None) -> int:
         """Replace module `name` (for this Repo object only) by a view in which calls to unprotected private helpers
         are inlined into their callers (see sa/inline.py). Returns the number of inlined calls."""
         from .inline import inline_module
@@ -145,10 +184,13 @@ class Repo:
         done = getattr(self, "_inlined", None)
         if done is None:
             done = self._inlined = {}
-        m = self.module(name)
+        m = self.by_rel[rel] if rel is not None else self.module(name)
         if m.rel in done:
             return done[m.rel]
         new, n = inline_module(m, protected)
+        if n == 0:
+            done[m.rel] = 0
+            return 0
         self._collect(new)
         self.by_rel[m.rel] = new
         if self.modules.get(m.name) is m:
@@ -236,6 +278,9 @@ class Repo:
         m = self.modules.get(name) or self.by_rel.get(name)
         if m is None:
             raise AnchorError(f"module `{name}` not found under {self.root}")
+        if getattr(self, "_auto_words", None) is not None and m.rel not in getattr(self, "_inlined", {}):
+            if self._auto_inline_one(m):
+                m = self.by_rel[m.rel]
         self.consulted.add(m.rel)
         return m
 
@@ -300,7 +345,12 @@ class Repo:
         return full
 
     def class_bases(self, ref: str) -> list[str]:
-        m, c = self.cls(ref)
+        # hierarchy walks read class headers only: no need for (and no cost of) the helper-inlined view
+        modname, _, qual = ref.partition(":")
+        m = self.modules.get(modname) or self.by_rel.get(modname)
+        c = m.classes.get(qual) if m is not None else None
+        if c is None:
+            m, c = self.cls(ref)
         out = []
         for b in c.bases:
             if isinstance(b, ast.Subscript):
